@@ -21,7 +21,7 @@ fn dev_explore(args: &[String]) {
     let elide = args.get(3).map(|s| s != "0").unwrap_or(true);
     let mut sites = vec![];
     for b in 0..=maxb {
-        let spec = WorkerSpec { scenario: scenario.clone(), cfg: cfg.clone(), bound: b, elide, try_sites: sites.clone(), seed: 1 };
+        let spec = WorkerSpec { scenario: scenario.clone(), cfg: cfg.clone(), bound: b, elide, try_sites: sites.clone(), seed: 1, fresh: false };
         let r = explore(&exe(), &spec, &Limits { workers: n_workers(), deadline: None, stop_on_violation: false });
         sites = r.try_sites.clone();
         let s = &r.stats;
@@ -48,7 +48,11 @@ fn main() {
     if let Ok(v) = std::env::var("VCHECK_SPIN") { vsched::rt::SPIN.store(v.parse().unwrap(), std::sync::atomic::Ordering::Relaxed); }
     match args.first().map(|s| s.as_str()) {
         Some("worker") => worker_main(&args[1..]),
-        Some("replay1") => replay1_main(&args[1..]),
+        Some("replay1") => {
+            // a single execution: always on fresh OS threads (thread-local state of the subject starts empty, as in production)
+            vsched::rt::FRESH_THREADS.store(true, std::sync::atomic::Ordering::SeqCst);
+            replay1_main(&args[1..])
+        }
         Some("explore") => dev_explore(&args[1..]),
         Some("check") => {
             let rc = check::check_main(&args[1..], &exe());
